@@ -1094,8 +1094,8 @@ func genLeak(ctx *core.Ctx) {
 		}
 		if ctx.Rng.Intn(3) == 0 {
 			a.Opts = randOpts(ctx.Rng)
-			if a.Pre != nil {
-				a.Opts.SkipInterpolation = false // see genLeakShared
+			if a.Pre != nil && a.Opts.SkipInterpolation {
+				ctx.Count("leak-random-shared-nointerp") // the recorded in-place finding, see genLeakShared
 			}
 			countOpts(ctx, "leak-random-opt", a.Opts)
 		}
@@ -1421,8 +1421,8 @@ func runC20(ctx *core.Ctx) {
 // YAML text never does (yaml.v3 decodes every alias afresh).  Every in-place pass of the loader after interpolation
 // (resolve*Environment: the carrier key; setNameFromKey: `name`; the decoder hook: `Content`) then writes through every
 // position, unless something between the caller's value and those passes made the positions distinct values.
-// Interpolation is on in this stream: with SkipInterpolation the loader works on the caller's value itself (no stage
-// copies it), which is a different contract (the caller's model is consumed) — not quantified here.
+// With SkipInterpolation the loader works on the caller's value itself (no stage copies it): a recorded finding with
+// its own two keys (inPlaceKeys in c20_oracle.go); with interpolation on nothing of the kind may happen.
 
 const plainRef = "${C20_PLAIN_UNSET:-plain}" // a reference that interpolates to a text nobody searches for
 
@@ -1612,9 +1612,6 @@ func genLeakShared(ctx *core.Ctx) {
 	}
 	// the loader options of round 6 on a shared model (interpolation stays on)
 	for _, o := range optsExhaustive() {
-		if o.SkipInterpolation {
-			continue
-		}
 		for _, src := range [][]string{{"secrets", "s_env"}, {"configs", "c_env1"}, {"secrets", "s_env", "x-nested"}} {
 			m, env, cores := mk(31)
 			a, ok := m.sharedArgs(env, cores, "single", src, shareTargets, 0)
@@ -1624,6 +1621,22 @@ func genLeakShared(ctx *core.Ctx) {
 			a.Opts = o
 			ctx.Count("leak-shared-exh-opts-" + o.label())
 			ctx.Add("c20.leak", a)
+		}
+	}
+	// SkipInterpolation (recorded finding `…:skip-interpolation`: the loader then works in place on the caller's value):
+	// every source × every single target, with and without a `$` left as written
+	for _, src := range srcs {
+		for ti := range shareTargets {
+			for dollar := 0; dollar < 2; dollar++ {
+				m, env, cores := mk(31)
+				a, ok := m.sharedArgs(env, cores, "single", src, shareTargets[ti:ti+1], dollar)
+				if !ok {
+					continue
+				}
+				a.Opts = &loadOpts{SkipInterpolation: true}
+				ctx.Count("leak-shared-exh-nointerp")
+				ctx.Add("c20.leak", a)
+			}
 		}
 	}
 }
